@@ -182,6 +182,7 @@ func (e *Engine) translate(fn *ssa.Function) (res *FuncResult, tr *Trans) {
 	}
 	tr.bindLoops()
 	tr.attachInvariants(res)
+	tr.insertExitChecks()
 	tr.il.cutLoops(tr.name, tr.props)
 	for k, v := range tr.il.Vars {
 		if v.Comp != "" {
@@ -528,4 +529,47 @@ func (tr *Trans) declaredInLoop(l *ILLoop, v *MVar) bool {
 		}
 	}
 	return false
+}
+
+// insertExitChecks: "exit" clauses of a loop hold on every edge leaving the loop body.
+func (tr *Trans) insertExitChecks() {
+	ct := tr.contract
+	for _, l := range tr.il.Loops {
+		if l.Spec == nil || len(l.Spec.Exits) == 0 {
+			continue
+		}
+		sc := tr.loopScope(l)
+		var members []*ILBlock
+		for b := range l.Body {
+			members = append(members, b)
+		}
+		sort.Slice(members, func(i, j int) bool { return members[i].ID < members[j].ID })
+		for _, b := range members {
+			for _, e := range b.Succs {
+				if l.Body[e.To] {
+					continue
+				}
+				x := tr.il.newBlock(fmt.Sprintf("loopexit(%d)", l.Head.ID))
+				for _, cl := range l.Spec.Exits {
+					te, err := sc.elab(cl.E)
+					if err != nil {
+						tr.eng.fatal("%s:%d: exit %q: %v", ct.File, cl.Line, cl.Src, err)
+						continue
+					}
+					props := cl.Tags
+					if len(props) == 0 {
+						props = ct.Tags
+					}
+					anchor := l.Key
+					if cl.Name != "" {
+						anchor += "[" + cl.Name + "]"
+					}
+					x.assert(te.E, tr.ob("exit", anchor, token.NoPos, cl.Src, props))
+				}
+				x.edge(e.To, "true")
+				e.To = x
+			}
+		}
+	}
+	tr.il.computePreds()
 }
